@@ -184,6 +184,32 @@ def bookmark_ids(ctx, F, R="R-ORDER"):
 
 # ----------------------------------------------------------------------------- who may write
 
+def recursion_arg_order(ctx, F, fns, R="R-SIB"):
+    """In a self-recursive call a parameter that is handed on unchanged stays in its own position: passing parameter j where
+    parameter i of the same type is expected (old/new, buffer/pattern, value/title exchanged) flips the roles on every other
+    level of the recursion."""
+    n = 0
+    for name in fns:
+        b = F.fn(name)
+        recs = [c for c in b.calls if c.name == b.path]
+        if not recs:
+            continue      # written as a loop: nothing is handed on
+        for c in recs:
+            n += 1
+            bad = []
+            for i, a in enumerate(c.args):
+                o = lib.origin_local(F, b, a)
+                if o is None or o[0] is not b or o[2]:
+                    continue
+                j = o[1] - 1
+                if 0 <= j < b.argc and j != i and b.lty(j + 1) == b.lty(i + 1):
+                    bad.append((i, j))
+            ctx.ob(R, "recursion-arg-order|%s|bb%d" % (name, recs.index(c)), not bad, "parameters handed on by the recursive call keep their positions", b.where(c.ln),
+                   what="%s calls itself with parameter %s in the position of %s (same type): the two exchange roles on every other level of the recursion"
+                        % (name, ", ".join(b.lname(j + 1) for i, j in bad), ", ".join(b.lname(i + 1) for i, j in bad)))
+    return n
+
+
 def field_writer_table(F, adts):
     """{adt.field: sorted PUBLIC functions from which a store to the field (or a `&mut` borrow of it) is reachable}.
     Public entry points are used instead of the function that contains the store, so that moving a store between a
@@ -255,11 +281,43 @@ def group_reader(ctx, F):
     readerrules.xref_max_id(ctx, F)
     readerrules.prev_not_carried(ctx, F)
     readerrules.no_early_object_reads(ctx, F)
+    readerrules.xref_stream_defaults(ctx, F)
 
 
 def group_strings(ctx, F):
-    import prop_c01
+    """what the writer spells and what the reader accepts agree byte for byte (names, strings, nesting, numbers, separators):
+    every clause that says "also after saving and reloading" rests on it."""
+    import prop_c01, lexrules
     prop_c01.membership_rule(ctx, F)
+    lexrules.check_names(ctx, F)
+    lexrules.check_strings(ctx, F, cr_required=False)
+    lexrules.check_nesting(ctx, F)
+    lexrules.check_hex_and_numbers(ctx, F)
+    lexrules.check_separators(ctx, F)
+    byte_order(ctx, F)
+
+
+BYTE_ORDER_RX = re.compile(r"::(to|from)_(le|ne)_bytes$|::swap_bytes$|::(to|from)_le$")
+BE_RX = re.compile(r"::(to|from)_be_bytes$")
+
+
+def byte_order(ctx, F, R="R-TABLE"):
+    """Every multi-byte integer of the file format is big-endian (cross-reference stream fields, UTF-16BE text, 16-bit samples);
+    little-endian conversions belong to the encryption algorithms only (Algorithm 1 appends the object number low byte first)."""
+    n = 0
+    for p, b in sorted(F.bodies.items()):
+        if b.file.startswith("src/encryption"):
+            continue
+        for c in b.calls:
+            fn = c.fn or ""
+            if BE_RX.search(fn):
+                n += 1
+            elif BYTE_ORDER_RX.search(fn):
+                ctx.ob(R, "byte-order|%s|%s" % (F.canon_of(b), fn.rsplit("::", 1)[-1]), False, "", b.where(c.ln),
+                       what="%s converts an integer with %s: every multi-byte integer written to or read from a PDF file is big-endian (the value %s is only unchanged when it fits one byte)"
+                            % (F.canon_of(b), fn.rsplit("::", 1)[-1], b.oname(c.args[0], 2) if c.args else "?"))
+    ctx.ob(R, "byte-order|big-endian-sites", n >= 8, "%d big-endian conversions outside the encryption module, no little-endian or native-endian one" % n, "src/writer.rs",
+           what="fewer big-endian conversion sites than reviewed (%d < 8): the rule no longer sees the writer's cross-reference stream fields" % n)
 
 
 def group_filters(ctx, F):
@@ -278,18 +336,19 @@ def group_pages(ctx, F):
 
 
 def group_sections(ctx, F):
-    import prop_c03
+    import prop_c03, prop_c19
     prop_c03.section_building(ctx, F)
+    prop_c19.counted_sink(ctx, F)
 
 
 GROUPS = {"reader": group_reader, "strings": group_strings, "filters": group_filters, "ids": group_ids, "sections": group_sections, "pages": group_pages}
 
 # rule groups shared between properties: a clause of several properties rests on the same piece of code
 GROUP_OF = {
-    "C01": ("reader", "strings", "ids", "sections"), "C02": ("reader", "filters"), "C03": ("reader", "strings", "ids"),
-    "C05": ("reader", "strings", "ids"), "C06": ("reader", "strings"), "C07": ("reader", "filters", "ids", "sections"), "C09": ("filters",),
-    "C10": ("ids", "reader", "pages"), "C11": ("ids", "filters", "sections", "reader", "pages"), "C12": ("reader",), "C13": ("filters",),
-    "C14": ("strings",), "C16": ("strings",), "C17": ("strings", "ids", "reader"), "C19": ("sections", "reader"),
+    "C01": ("reader", "strings", "ids", "sections"), "C02": ("reader", "filters"), "C03": ("reader", "strings", "ids", "sections"),
+    "C05": ("reader", "strings", "ids"), "C06": ("reader", "strings"), "C07": ("reader", "filters", "ids", "sections", "strings"), "C09": ("filters",),
+    "C10": ("ids", "reader", "pages", "strings"), "C11": ("ids", "filters", "sections", "reader", "pages", "strings"), "C12": ("reader",), "C13": ("filters",),
+    "C14": ("strings",), "C16": ("strings",), "C17": ("strings", "ids", "reader"), "C19": ("sections", "reader", "strings"),
 }
 
 # which building blocks each property's clauses rest on (included by ./check after the property's own rules)
